@@ -94,6 +94,10 @@ def run(prog: Program, rep: Report, tier: str) -> None:
             rebinds = [n for n in walk_no_nested(fi.node) if isinstance(n, (ast.Assign, ast.AugAssign)) and any(isinstance(t, ast.Name) and t.id in (da[0] if da else []) for t in (n.targets if isinstance(n, ast.Assign) else [n.target]))]
             first_defs = [n for n in rebinds if isinstance(n, ast.Assign) and isinstance(n.targets[0], ast.Tuple)]
             rep.check("R15.2", fi.qual, "step-start positions are not rebound before the depth is sampled", len(rebinds) - len(first_defs) == 0 or not okd, what_bad=f"{[short(r) for r in rebinds]}", what_ok="bound once", loc=fi.loc())
+    # the depth (and anything else per particle) is this step's, never an attribute left by an earlier step
+    from . import c14
+
+    c14.step_attribute_freshness(prog, rep, "R15.2", roles=("tracker",))
     # both off: Z untouched
     for adv in (True, False):
         it, fr, dom, facts, log, z0, fi = vertical_eval(prog, False, False, advection=adv)
@@ -112,6 +116,8 @@ AUDIT = [
     Mut("bottom-clamp-missing", T, "                below_seabed = Z > h\n                Z[below_seabed] = 2 * h[below_seabed] - Z[below_seabed]", "                below_seabed = Z > 2 * h\n                Z[below_seabed] = 2 * h[below_seabed] - Z[below_seabed]", rule="R15.1"),
     Mut("surface-mask-wrong", T, "            Z[Z < 0] *= -1\n", "            Z[Z < h] *= -1\n", rule="R15.1"),
     Mut("double-displacement", T, "                W = self.diffuse_vert(num_particles=len(X))\n                Z += W * self.dt", "                W = self.diffuse_vert(num_particles=len(X))\n                Z += 2 * W * self.dt", rule="R15.1"),
+    Mut("depth-cached-across-steps", T, "            h = grid.depth(X, Y)\n", "            if not hasattr(self, '_h') or len(self._h) != len(X):\n                self._h = grid.depth(X, Y)\n            h = self._h\n", rule="R15.2"),
+    Mut("benign-depth-kept-for-logging", T, "            h = grid.depth(X, Y)\n", "            h = grid.depth(X, Y)\n            self.last_depth = h\n", expect="silent"),
     Mut("depth-at-new-position", T, "            h = grid.depth(X, Y)\n", "            h = grid.depth(X1, Y1)\n", rule="R15.2"),
     Mut("always-store-z", T, "        h = None\n        if self.vertdiff or self.vertical_advection:", "        h = None\n        if True:", rule="R15.3"),
     Mut("benign-abs", T, "            Z[Z < 0] *= -1\n", "            Z = np.abs(Z)\n", expect="silent"),
